@@ -296,4 +296,3 @@ func boundaryAtoms(c *Ctx, fn *ssa.Function) []string {
 	sort.Strings(out)
 	return out
 }
-
